@@ -132,6 +132,21 @@ def run(ctx):
     r3.check(ok, ctx.construct(rs, extra='order'),
              'resume does not pass set_state -> continue_workflow -> '
              '_continue_workflow on every path', ctx.loc(rs))
+    rh = prog.func('mistral.engine.workflow_handler.resume_workflow')
+    rcfg = ctx.cfg(rh)
+    INr, kr = sd.analyze(rcfg, rh, [('wf_ex.state', sd.state_domain)])
+    n_res = 0
+    for n, c in U.calls_in(rcfg, 'resume'):
+        if isinstance(c.func, ast.Attribute) and dotted(c.func.value) == 'wf':
+            n_res += 1
+            vals = sd.values_at(INr, kr, n, 'wf_ex.state')
+            need = {S['PAUSED'], S['IDLE']}
+            r3.check(need <= vals, ctx.construct(rh, extra='resume admitted '
+                                                 'for PAUSED and IDLE'),
+                     'a workflow in %s is not resumed' % sorted(need - vals),
+                     ctx.loc(rh, c))
+    if not n_res:
+        raise AnalysisError('C10.R3: resume_workflow no longer resumes')
     cw = prog.func(WF + '._continue_workflow')
     cfg = ctx.cfg(cw)
     outs = [n for n, c in U.calls_in(cfg, 'dispatch_workflow_commands')] + \
